@@ -88,8 +88,8 @@ def main(tier, seed):
                       'names: 1 symbolic well-formed char each (as C01)']
     shapes = c01.shape_list(tier)
     if quick:
-        shapes = [x for x in shapes if x[0].startswith(('atom/VariableIndependent', 'atom/Interval', 'set/SetExtension', 'vec/Product', 'image/ImageExtension@1', 'unary/', 'bin/Inheritance', 'bin/DifferenceIntension', 'nest/neg-conj', 'nest/var-op')) and not x[0].endswith('SetExtension1')] \
-                 + [x for x in shapes if x[0].startswith('sent/')][::12] + [x for x in shapes if x[0].startswith('task/')][::7]
+        shapes = [x for x in shapes if x[0].startswith(('atom/', 'set/SetExtension', 'set/Conjunction', 'vec/', 'image/ImageExtension@1', 'image/ImageIntension@2', 'unary/', 'bin/', 'nest/')) and not x[0].endswith('SetExtension1')] \
+                 + [x for x in shapes if x[0].startswith('sent/')][::8] + [x for x in shapes if x[0].startswith('task/')][::5]
     for fmt in FORMATS:
         plist = []
         for nm, sp in shapes:
